@@ -6,5 +6,6 @@ CONSTANTS
   DEV_NestedSupertype = FALSE
   DEV_OwnerImportTwice = FALSE
   DEV_OwnerNaming = TRUE
+  DEV_WorldMerge = TRUE
 INVARIANTS FailsExactly MatchesContract MatchesByKey OneImportPerKey UniqueNames Canonical Satisfies Idempotent EmitReplay
 CHECK_DEADLOCK FALSE
